@@ -52,6 +52,10 @@ def catalogue():
     w = lambda con, mn=1, mx=1: ('w', con, mn, mx)
     h = lambda mn=1, mx=1: ('h', mn, mx)
     cat = [
+        # notQName="##definedSibling": siblings declared in nested groups count
+        (s([c([e('a'), e('b')]), w('any~a,b', 0, None)]), {}),
+        (s([s([e('a'), e('b')], 0, 1), w('any~a,b', 0, None)]), {}),
+        (s([c([e('a'), s([e('b'), e('c', 0, 1)])], 1, 2), w('tns~a,b,c', 0, 2)]), {}),
         (s([e('a'), e('b')]), {}),
         (s([e('a', 0, 1), e('b')]), {}),
         (s([e('a', 2, 3), e('b', 0, None)]), {}),
@@ -415,6 +419,11 @@ def run_shard(spec, res):
                     cfg['groupref'] = True
                 if rng.random() < 0.15:
                     cfg['open'] = (rng.choice(('interleave', 'suffix')), rng.choice(('other', 'local', 'n1', 'any')))
+            if not cfg and any(lf[0] == 'w' for lf in M.leaves(node)) and not any(lf[0] == 'h' for lf in M.leaves(node)) \
+                    and rng.random() < 0.5:
+                # XSD 1.1: wildcards that refuse the names declared anywhere in the same content model
+                node = M.with_defined_sibling(node, rng)
+                res.count('random:models_with_definedSibling')
             res.count('random:models')
             judge.run_model(node, cfg, 'random')
 
